@@ -158,6 +158,20 @@ theorem c20_mem_mutations (H : Heap) (p : PacketM) (hok : okPacket H p) (m : Mut
   ⟨(c20_mem_independent H p hok _).1 (applyMutM_confined _ _ m),
    (c20_mem_independent H p hok _).2 (applyMutM_confined _ _ m)⟩
 
+/-- Header.Clone on its own, over the heap: same value, nil-ness preserved, every backing array new -/
+theorem c20_mem_header_clone (H : Heap) (h : HeaderM) (hok : okHeader H h) :
+    readHeader (hdrCloneM H h).1 (hdrCloneM H h).2 = readHeader H h ∧
+    (hdrCloneM H h).2.csrc.isNil = h.csrc.isNil ∧ (hdrCloneM H h).2.exts.isNil = h.exts.isNil ∧
+    (∀ a ∈ reachHeader (hdrCloneM H h).1 (hdrCloneM H h).2, H.length ≤ a) ∧
+    (∀ a ∈ reachHeader H h, a < H.length) := by
+  have hc := hdrCloneM_spec H h hok
+  refine ⟨hc.read, hc.nilCsrc, hc.nilExts, fun a ha => (hc.fresh a ha).1, ?_⟩
+  intro a ha
+  simp only [reachHeader, List.append_assoc, List.mem_append] at ha
+  rcases ha with ha | ha | ha
+  · exact okWords_lt hok.1 a ha
+  · exact okExts_lt hok.2 a (List.mem_append.mpr (Or.inl ha))
+  · exact okExts_lt hok.2 a (List.mem_append.mpr (Or.inr ha))
 /-- the link to the value-level model: what the heap-level clone reads as is `pktClone` of what
     the original reads as -/
 theorem c20_mem_refines (H : Heap) (p : PacketM) (hok : okPacket H p) :
